@@ -86,10 +86,11 @@ pub fn compare_plain(
                 LoadError::Empty => "probe:load_refused_empty",
                 LoadError::TooLong => "probe:load_refused_too_long",
             });
-            if outcome.load.is_some() || outcome.end != End::Exit(0xEE) {
+            // (which error status is not this property's business)
+            if outcome.load.is_some() || !matches!(outcome.end, End::Exit(code) if code != 0 && code != 101) {
                 v.push(viol(
                     format!("C03/load/refusal/{:?}", e),
-                    format!("loader should refuse ({:?}) with exit 0xEE, got {}", e, outcome.end.label()),
+                    format!("loader should refuse ({:?}) with an error exit, got {}", e, outcome.end.label()),
                 ));
             }
             return v;
@@ -186,7 +187,7 @@ pub fn compare_plain(
     if walked_away {
         report.hit("fault:terminal_user_walked_away");
     }
-    if !walked_away && (itrace.len() != mtrace.len() || Some(&outcome.end) != expected_end.as_ref()) {
+    if !walked_away && (itrace.len() != mtrace.len() || !expected_end.as_ref().is_some_and(|e| crate::world_a::end_agrees(&outcome.end, e))) {
         // A pending costless stop at the exact budget boundary shows as Fuel in the real system
         let boundary = outcome.end == End::Fuel && msteps == fuel;
         if !boundary {
